@@ -125,9 +125,7 @@ async def run_one(flavor, c, cnt, v):
     ext = {}
     if c.get("sni"):
         ext["sni_hostname"] = c["sni"]
-    forward = kind in ("http", "https") and not tls
-    if c.get("target_ext") and not forward:
-        # (what an explicit target means for a *forwarded* request line is not settled by the property: not generated)
+    if c.get("target_ext"):
         ext["target"] = c["target_ext"].encode()
     body_parts = [BODY + b"-a" * 50, BODY + b"-b" * 20]
     content = None if c["body"] is None else (b"".join(body_parts) if c["body"] == "bytes" else api.body(body_parts))
@@ -193,7 +191,7 @@ async def run_one(flavor, c, cnt, v):
                 v("nothing-forwarded", repr(out), ctx)
             else:
                 req = px.forwards[0]
-                want_target = f"http://{hostport}/path?x=1".encode()
+                want_target = f"http://{hostport}{c.get('target_ext') or '/path?x=1'}".encode()
                 if req.target != want_target:
                     v("forward-target-not-absolute-url", f"{req.target!r} != {want_target!r}", ctx)
                 dflt_host = uhost.encode() if c["port"] is None else hostport.encode()
